@@ -124,7 +124,8 @@ pub fn cone_case(out: &mut Out, rng: &mut Rng, c: &ConeIn, prop: &str) {
 
 pub fn gen_cone(rng: &mut Rng, thorough: bool, thresholds: &[f64]) -> ConeIn {
   let dmax = if thorough { 14 } else { 11 };
-  let depth = rng.below(dmax + 1) as u8;
+  // every depth: mostly 0..dmax, one case in four at the deep depths (the cap below keeps the answer small)
+  let depth = if rng.chance(0.25) { (dmax + 1 + rng.below(29 - dmax)) as u8 } else { rng.below(dmax + 1) as u8 };
   let dd = if rng.chance(0.4) { rng.below(4.min(29 - depth as u64) + 1) as u8 } else { 0 };
   let p = loop { let p = gen_pos(rng); if p.lat.abs() <= PI / 2.0 { break p; } };
   let cellsize = 1.0 / (1u64 << depth) as f64;
